@@ -1,5 +1,6 @@
 import SSEPyVerif.Driver.Proto
 import SSEPyVerif.Generated.ClientIR
+import SSEPyVerif.Model.Client
 namespace SSEPy.Driver
 open SSEPy.Proto SSEPy.ServerIR SSEPy.ClientIR
 
@@ -25,5 +26,41 @@ def cliReq : List String → String
     | some e => "ok " ++ ",".intercalate ((fsOps p e).filterMap showFsOp)
     | none => bad
   | _ => bad
+
+end SSEPy.Driver
+
+namespace SSEPy.Driver
+open SSEPy.Proto SSEPy.ServerIR SSEPy.ClientIR
+
+def showBitsN (b : Bits) : String :=
+  let f (x : Bool) (n : Nat) := if x then n else 0
+  toString (f b.created 1 + f b.uploaded 2 + f b.key 4 + f b.encrypted 8 + f b.dbUploaded 16)
+
+def showWorld (w : World) : String :=
+  let fs {α} (sh : α → String) : FileSt α → String
+    | .absent => "-" | .empty => "empty" | .full v => sh v
+  s!"dir={w.cdisk.dir} bits={fs showBitsN w.cdisk.metaSt} key={fs toString w.cdisk.key} " ++
+  s!"edb={fs (fun _ => "present") w.cdisk.edb} server={w.server.st}"
+
+def showCOut : COut → String
+  | .ok => "ok" | .refused => "refused"
+  | .result e k => if e == k then "result:correct" else "result:WRONG"
+
+def parseCmd : List String → Option Cmd
+  | ["create", c, v] => c.toNat?.map fun c => .create c (v == "1")
+  | ["key"] => some .key
+  | ["encrypt"] => some .encrypt
+  | ["upload_config"] => some .uploadConfig
+  | ["upload_edb"] => some .uploadEdb
+  | ["search"] => some .search
+  | _ => none
+
+/-- `cli reset` | `cli cmd …` (answer: outcome, then the persisted state) -/
+def cliStateReq (w : World) : List String → World × String
+  | ["reset"] => ({}, "ok")
+  | "cmd" :: rest => match parseCmd rest with
+    | some c => let (w', o) := runCmd SSEPy.Generated.clientProgram w c; (w', "ok " ++ showCOut o ++ " | " ++ showWorld w')
+    | none => (w, bad)
+  | _ => (w, bad)
 
 end SSEPy.Driver
